@@ -138,59 +138,67 @@ set_option maxRecDepth 20000 in
 example : ((Ex.st 23).stream 0).hasContent .ll = true ∧ reqDecision (Ex.st 23) 0 (some 11) (some 9) false = .wait ∧
     reqDecision (Ex.st 23) 0 (some 12) none false = .wait := by decide
 
-/-- **wait ⇒ unpublished**, full strength: EXPECTED FALSE on the unchanged tree (known finding
-`F7-gap-msn-blocks`): see `c06_f7_witness`. -/
-def WaitMeansUnpublished : Prop :=
-  ∀ (st : State), Reachable st → ∀ (si : Nat), si < st.streams.length → (st.stream si).nextSegmentID < two64 →
-    (st.stream si).hasContent .ll = true → ∀ (M : Nat) (part : Option Nat) (skip : Bool),
-    reqDecision st si (some M) part skip = .wait →
-    match part with
-    | none => ¬ (st.stream si).listed M
-    | some P => ¬ (st.stream si).published ((st.stream si).normalise M P).1 ((st.stream si).normalise M P).2
-
-/-- **wait ⇒ unpublished**, for every request that does not name a listed gap entry: a request that is
-made to wait asks for a complete segment that is not listed yet, or for a part (after roll-over) that
-has not been produced yet.  Missing w.r.t. the full statement: `M` naming one of the initial gap
-entries together with `_HLS_part` (finding F7). -/
-theorem c06_wait_means_unpublished_partial (st : State) (hr : Reachable st) (si : Nat) (hsi : si < st.streams.length)
+/-- **wait ⇒ unpublished**, FULL strength (true since the F7 repair: a gap entry named by the request
+is a complete segment without parts, so any part index rolls over to the first real segment): a request
+that is made to wait asks for a complete segment that is not listed yet, or for a part (after roll-over)
+that has not been produced yet. -/
+theorem c06_wait_means_unpublished (st : State) (hr : Reachable st) (si : Nat) (hsi : si < st.streams.length)
     (h64 : (st.stream si).nextSegmentID < two64) (hc : (st.stream si).hasContent .ll = true)
     (M : Nat) (part : Option Nat) (skip : Bool)
-    (hng : ∀ d, (st.stream si).entryAt M ≠ some (.gap d))
     (h : reqDecision st si (some M) part skip = .wait) :
     match part with
     | none => ¬ (st.stream si).listed M
     | some P => ¬ (st.stream si).published ((st.stream si).normalise M P).1 ((st.stream si).normalise M P).2 := by
   obtain ⟨cfg, st0, ops, hll, hs, rfl⟩ := hr
-  exact wait_unpublished _ si (run_inv cfg st0 ops hll hs) hsi h64 ((hasContent_ll _).mp hc) M part skip hng h
+  exact wait_unpublished _ si (run_inv cfg st0 ops hll hs) hsi h64 ((hasContent_ll _).mp hc) M part skip h
 
 set_option maxRecDepth 20000 in
 example : reqDecision (Ex.st 23) 0 (some 11) (some 2) false = .wait ∧
     ((Ex.st 23).stream 0).entryAt 11 = none ∧ ((Ex.st 23).stream 0).openPartCount = 2 := by decide
 
-/-- any request with a part index for a listed gap entry is made to wait -/
-theorem c06_gap_request_waits (st : State) (hr : Reachable st) (si : Nat) (hsi : si < st.streams.length)
+/-- a request with a part index for a listed gap entry is ANSWERED (it normalises to part 0 of the first
+real segment, which is published as soon as content exists) -/
+theorem c06_gap_request_answered (st : State) (hr : Reachable st) (si : Nat) (hsi : si < st.streams.length)
     (h64 : (st.stream si).nextSegmentID < two64) (M P : Nat) (d : Int) (skip : Bool)
-    (hg : (st.stream si).entryAt M = some (.gap d)) (hM : (st.stream si).deleteCount < M) :
-    reqDecision st si (some M) (some P) skip = .wait := by
+    (hg : (st.stream si).entryAt M = some (.gap d)) (hM : (st.stream si).deleteCount < M)
+    (hpub : (st.stream si).published ((st.stream si).normalise M P).1 ((st.stream si).normalise M P).2) :
+    reqDecision st si (some M) (some P) skip = .respond skip := by
   obtain ⟨cfg, st0, ops, hll, hs, rfl⟩ := hr
   have hinv := run_inv cfg st0 ops hll hs
   have hvi := hinv.streams si hsi
   obtain ⟨_, hlt, hne⟩ := entryAt_lt_next _ si _ hvi M _ hg
-  have hp := hasPart_gap _ si _ hvi M P d hg
+  have hp := (hasPart_iff _ si _ hvi hne M P (by omega)).mpr hpub
   rw [reqDecision_msn _ si hinv.ll, lowerBound_eq _ si _ hvi hne h64, if_neg (by omega)]
-  simp [hp]
+  simp [hp, (hasContent_ll _).mpr hne]
+
+-- non-vacuity: after 23 frames MSN 4–6 are gaps, 7–10 segments; (5,0) and (6,3) normalise to (7,0)
+set_option maxRecDepth 20000 in
+example : ((Ex.st 23).stream 0).entryAt 5 = some (.gap 1000000000) ∧ ((Ex.st 23).stream 0).deleteCount < 5 ∧
+    ((Ex.st 23).stream 0).normalise 5 0 = (7, 0) ∧ ((Ex.st 23).stream 0).normalise 6 3 = (7, 0) ∧
+    ((Ex.st 23).stream 0).published 7 0 ∧
+    reqDecision (Ex.st 23) 0 (some 5) (some 0) false = .respond false ∧
+    reqDecision (Ex.st 23) 0 (some 6) (some 3) true = .respond true := by decide
+
+/-- finding F7 (the behaviour BEFORE the repair, `hasPartLegacy` = the scan in which gap entries never
+match): a request with a part index for a listed gap entry matched nothing in every reachable state — the
+handler's condition `hasContent() && hasPart(M, P)` was false, the request blocked until the window slid
+past the gap (then 400). -/
+theorem c06_gap_request_waits_legacy (st : State) (hr : Reachable st) (si : Nat) (hsi : si < st.streams.length)
+    (M P : Nat) (d : Int) (hg : (st.stream si).entryAt M = some (.gap d)) :
+    (st.stream si).hasPartLegacy M P = false := by
+  obtain ⟨cfg, st0, ops, hll, hs, rfl⟩ := hr
+  exact hasPartLegacy_gap _ si _ ((run_inv cfg st0 ops hll hs).streams si hsi) M P d hg
 
 set_option maxRecDepth 20000 in
-/-- **F7 witness**: after 23 frames the example stream lists gaps under MSN 4–6 and segments 7–10; the
-request `_HLS_msn=5&_HLS_part=0` normalises to `(7, 0)`, which is published — yet the decision is `wait`. -/
-theorem c06_f7_witness : ¬ WaitMeansUnpublished := by
-  intro h
-  have := h (Ex.st 23) (Ex.reachable 23) 0 (by decide) (by decide) (by decide) 5 (some 0) false (by decide)
-  apply this
-  decide
-
-set_option maxRecDepth 20000 in
-example : ((Ex.st 23).stream 0).entryAt 5 = some (.gap 1000000000) ∧ ((Ex.st 23).stream 0).deleteCount < 5 := by decide
+/-- **F7 witness** (legacy): in the example state after 23 frames the request `_HLS_msn=5&_HLS_part=0` names a
+listed gap above the expiry threshold and normalises to `(7, 0)`, which is published — the legacy scan
+says "no" (the request waited), the repaired `hasPart` says "yes". -/
+theorem c06_f7_witness_legacy :
+    ∃ (st : State) (si M P : Nat), Reachable st ∧ si < st.streams.length ∧ (st.stream si).hasContent .ll = true ∧
+      (st.stream si).deleteCount < M ∧ M < (st.stream si).nextSegmentID ∧
+      (st.stream si).published ((st.stream si).normalise M P).1 ((st.stream si).normalise M P).2 ∧
+      (st.stream si).hasPartLegacy M P = false ∧ (st.stream si).hasPart M P = true :=
+  ⟨Ex.st 23, 0, 5, 0, Ex.reachable 23, by decide, by decide, by decide, by decide, by decide, by decide, by decide⟩
 
 /-- **no more input, part 1 (pure):** the decision is a function of the stream's view (window, counters,
 open segment's parts) and the variant only — nothing a requester holds besides the muxer state. -/
